@@ -135,6 +135,16 @@ def run_property(pid, tier, harnesses, world, seed, wall_budget, extra=None):
             print(f'INCONCLUSIVE property={pid} harness={h.name}: vacuity guard: no path reached classes {missing}', flush=True)
             hs['missing_classes'] = missing
             exit_code = max(exit_code, 2)
+        # ---- cross-validation of the interpreter: replay sampled non-violating paths natively, compare outcome classes
+        if hasattr(h, 'native_validate') and S.vsamples:
+            nchk, bad, text = h.native_validate(world, S.vsamples)
+            hs['native_cross_validation'] = {'paths_checked': nchk, 'mismatches': bad, 'note': text[-300:] if text else ''}
+            cov['traces_validated_against_impl'] += max(0, nchk - bad)
+            if bad or nchk == 0:
+                print(f'INCONCLUSIVE property={pid} harness={h.name}: native cross-validation of sampled paths: {bad} mismatches of {nchk}: {text[-500:]}', flush=True)
+                exit_code = max(exit_code, 2) if exit_code != 1 else 1
+            else:
+                print(f'[{pid}] {h.name}: {nchk} sampled paths re-run natively, outcomes agree', flush=True)
         # ---- violations: dedupe by key, replay
         seen = {}
         for v in S.violations + S.steplimits:
@@ -195,6 +205,9 @@ def hashed_fns(world, names):
 
 
 def main():
+    import resource
+    try: resource.setrlimit(resource.RLIMIT_STACK, (min(resource.getrlimit(resource.RLIMIT_STACK)[1], 1 << 30) if resource.getrlimit(resource.RLIMIT_STACK)[1] != resource.RLIM_INFINITY else 1 << 30, resource.getrlimit(resource.RLIMIT_STACK)[1]))
+    except Exception: pass
     ap = argparse.ArgumentParser()
     ap.add_argument('prop'); ap.add_argument('--tier', default=os.environ.get('VERIF_TIER', 'quick'))
     ap.add_argument('--only', default=None, help='comma list of harness names')
